@@ -273,7 +273,21 @@ func runCheck(repo, verif, prop, tier, fnFilter string, relock, verbose bool) in
 				} else {
 					script = o.Goal // lemma: full script
 				}
-				o.Res = solve(script, timeout, confirm && o.Kind != "vacuity")
+				if o.Kind == "vacuity" {
+					o.Res = solve(script, 5, false)
+					if o.Res.Status == "unsat" && o.BeforeReach != "" {
+						// infeasible after the call: vacuous only if the path was feasible before it
+						b := *o
+						b.Upto, b.Reach = o.BeforeUpto, o.BeforeReach
+						rb := solve(o.vc.script(&b, false), 5, false)
+						if rb.Status == "unsat" {
+							o.Res.Status = "unknown" // dead path, not a contradiction introduced by the callee contract
+							o.Res.Output = "path infeasible already before the call"
+						}
+					}
+				} else {
+					o.Res = solve(script, timeout, confirm)
+				}
 			}
 		}()
 	}
